@@ -184,6 +184,12 @@ class Scopes(Family):
     def after_call(self, ex, info):
         for _, f in self.two_state(info['pre'], ex.heap):
             ex.assume(f)
+        # the callee's guarantee holds at every index; besides the skolem index the two bottom positions
+        # (builtins copy, host names) are the ones specifications speak about directly
+        pre, h = info['pre'], ex.heap
+        s = cur_scopes(pre)
+        for k in (0, 1):
+            ex.assume(z3.Implies(pre.llen(s) > k, h.lelt(s, k) == pre.lelt(s, k)))
 
     def on_exit(self, ex, ctx, outcome):
         if self.exempt:
